@@ -412,6 +412,8 @@ func (r *RefCount[T]) resolve(ctx context.Context, waitCh, doneCh chan struct{},
 	if waitCh != nil {
 		select {
 		case <-ctx.Done():
+			// the previous resolver must exit before we signal that we exited
+			<-waitCh
 			return
 		case <-waitCh:
 		}
